@@ -24,7 +24,8 @@ func (ex *Exec) loopDirs(li *loopInfo, kind string) []Directive {
 
 func (ex *Exec) execLoop(li *loopInfo, entry []Edge) []Edge {
 	invs := ex.loopDirs(li, "invariant")
-	if len(invs) == 0 {
+	if len(invs) == 0 || ex.depth > 0 {
+		// inlined helpers are executed exactly (their own invariants belong to their own proof)
 		return ex.unrollLoop(li, entry)
 	}
 	return ex.cutLoop(li, entry, invs)
